@@ -414,6 +414,20 @@ def rnd_setting(rng, idnt=None):
         "optimal_fit_num_samples": [7, 8, 8.0, 5],
         "method_kws": [{}, {}, {"ftol": 1e-9}, {"xtol": 1e-9, "ftol": 1e-9}],
     }
+    if idnt is not None and rng.random() < 0.15:
+        # near-equal perturbation of a stored numeric setting: a change of a
+        # few nanometres / 1e-9 relative is still a change
+        k2 = rng.choice(["range_x", "range_x", "weight_cp", "gcf_k"])
+        cur = idnt.fit_properties.get(k2)
+        try:
+            if k2 == "range_x" and len(cur) == 2 and \
+                    all(np.isfinite(float(c)) for c in cur):
+                return k2, [float(cur[0]) - 3e-9,
+                            float(cur[1]) + rng.choice([0.0, 4e-9])]
+            if k2 != "range_x" and not isinstance(cur, bool) and cur:
+                return k2, float(cur) * (1 + 1e-9)
+        except (TypeError, ValueError):
+            pass
     if key == "params_initial":
         r = rng.random()
         if r < 0.2 or idnt is None:
@@ -426,7 +440,9 @@ def rnd_setting(rng, idnt=None):
             return key, p                      # unchanged copy
         name = rng.choice(list(p.keys()))
         r2 = rng.random()
-        if r2 < 0.4:
+        if r2 < 0.1:
+            p[name].set(value=float(p[name].value) * (1 + 1e-9) + 1e-18)
+        elif r2 < 0.4:
             p[name].set(value=float(p[name].value) * 1.5 + 1e-7)
         elif r2 < 0.6:
             p[name].set(vary=not p[name].vary)
